@@ -32,12 +32,12 @@ def run_c15(ctx):
                         "classes named in Caps.tla", "MDMF extension fields are read as ':' followed by anything (the statement's allowance)",
                         "SHA-256 based derivations are outside this check (C17)"]
     if ctx.quick:
-        full = ["CHK", "LIT", "SSK", "MDMF-Verifier", "DIR2-CHK-Verifier"]
+        full = ["CHK-Verifier", "LIT", "SSK", "MDMF-RO"]
         kinds2 = []
-        nconc, nfuzz = 3, 3000
+        nconc, nfuzz = 3, 2000
     else:
         full = ALL_KINDS
-        kinds2 = ["CHK", "CHK-Verifier", "LIT", "SSK-RO", "MDMF", "DIR2-CHK-Verifier", "DIR2-MDMF-RO", "DIR2-LIT"]
+        kinds2 = ["CHK-Verifier", "MDMF", "LIT"]
         nconc, nfuzz = 3, 40000
     ctx.constants["GEN"] = {"FullKinds": full, "Kinds2": kinds2, "concretisations_per_case": nconc, "fuzz_strings": nfuzz}
     cfg = ("SPECIFICATION Spec\nCONSTANT FullKinds = %s\nCONSTANT Kinds2 = %s\n" % (tla_set(full), tla_set(kinds2)) +
@@ -70,8 +70,8 @@ def run_c15(ctx):
     for x, e in zip(fuzz, exp):
         pieces = [L.dec(p) for p in x["pieces"]]
         s = b"".join(pieces)
-        if not e["decidable"]:
-            raise RuntimeError("abstraction produced an undecidable string: %r" % x["chars"])
+        if any(c in ("Bl", "Bx", "Dg") for c in x["chars"]):
+            raise RuntimeError("abstraction produced an imprecise character: %r" % x["chars"])
         known = e["kind"] != "Unknown" or x["obs"].get("kind") != "Unknown"
         nacc += known
         ctx.count(("fuzz:" + L.enc(s)) if (known or x["chars"][:1] and x["chars"][0][:2] in ("P:", "ro", "im", "F:")) else None)
@@ -91,3 +91,64 @@ def run_c15(ctx):
                 "code": fuzz[1]["obs"].get("kind")}, limit=4)
     ctx.notes.append("GEN cases %d x %d concretisations; fuzz strings %d of which %d accepted by Spec or code; kinds observed: %s" % (
         len(cases), nconc, len(fuzz), nacc, json.dumps(res["observed_kinds"], sort_keys=True)))
+
+
+def run_c16(ctx):
+    ctx.rule = ("GEN: TLC enumerates (a) every cap kind with the kinds, flags and field terms of its read-only / verify derivations "
+                "along the chain, (b) every kind, the future-format test caps and an unknown format under every alleged prefix x "
+                "deep-immutable context x write/read slot with Parse's verdict and what NodeMaker.create_from_cap must build, "
+                "(c) UnknownNode(rw, ro, deep) over cap strings of every shape; all with the Spec's expected outcome. Each case is "
+                "concretised with seeded random secrets and replayed into uri.from_string, get_readonly, get_verify_cap, is_readonly, "
+                "is_mutable, get_storage_index, to_string, NodeMaker.create_from_cap and UnknownNode; derived field values are computed "
+                "from the terms by the independent interpreter; derived strings are searched for the stronger secret. All cases non-trivial.")
+    ctx.assumptions += ["TLC and the CommunityModules", "harness/caps_lib.py character classes; harness/kd_interp.py (hashlib only)",
+                        "Grid server seeds: lease seed = write-enabler seed = server id"]
+    unkinds = ["SSK", "CHK"] if ctx.quick else ["SSK", "SSK-RO", "CHK", "SSK-Verifier", "DIR2", "LIT", "MDMF-RO", "DIR2-CHK"]
+    cfg = "SPECIFICATION Spec\nCONSTANT UNKinds = %s\n" % tla_set(unkinds) + "".join("INVARIANT %s\n" % i for i in (
+        "C16_Lattice", "C16_SameSI", "C16_NoLeak", "C16_Derivations", "C16_Alleged", "C16_UnknownNode"))
+    tokf = os.path.join(ctx.workdir, "tokens.json")
+    kdf = os.path.join(ctx.workdir, "kd.json")
+    env = dict(JVM)
+    env.update({"TOK_FILE": tokf, "KD_FILE": kdf})
+    cases, r = ctx.gen("caps/CapsGen16", cfg, env=env, timeout=3000)
+    ctx.exhaustive = True
+    nconc = 2 if ctx.quick else 25
+    ctx.constants["GEN"] = {"cases": len(cases), "concretisations_per_case": nconc, "UNKinds": unkinds}
+    res = ctx.impl("harness/caps_driver.py", ["c16"], input_obj={"cases": cases, "tokens": json.load(open(tokf)),
+                                                                 "kd": json.load(open(kdf)), "nconc": nconc})
+    for c in cases:
+        ctx.count(json.dumps({k: c[k] for k in c if k in ("t", "toks", "deep", "slots", "rw_toks", "ro_toks", "rw_given", "ro_given")}, sort_keys=True), nconc)
+    for s_ in res["samples"]:
+        ctx.sample(s_, limit=3)
+    ctx.notes.append("replayed: %s" % json.dumps(res["stats"]))
+    report_mismatches(ctx, res["mismatches"], "see examples: uri.from_string(string.encode('latin-1')) then the named method; "
+                      "UnknownNode(rw, ro, deep_immutable=deep); NodeMaker.create_from_cap(writecap, readcap, deep_immutable=deep)")
+
+
+def run_c43(ctx):
+    ctx.rule = ("GEN: TLC enumerates pairs of caps of every kind (identical; differing in exactly one field, for each field; "
+                "same fields under a different kind of the same shape), the same pairs as nodes built by two independent "
+                "NodeMakers (ImmutableFileNode, CiphertextFileNode, LiteralFileNode, MutableFileNode, DirectoryNode, UnknownNode), "
+                "pairs of UnknownNodes holding future-format caps (prefix x slot x context x same/different payload) and pairs of "
+                "different sorts (cap / node / bytes / None), each with the Spec's verdict Eq = equal serialisation, Ne = ~Eq, "
+                "Eq => equal hash. The adapter builds both objects independently from seeded concretisations and evaluates ==, != "
+                "(both orders, and reflexively) and hash(). All cases non-trivial.")
+    ctx.assumptions += ["TLC and the CommunityModules", "harness/caps_lib.py character classes", "nodes are built through "
+                        "NodeMaker.create_from_cap of two fresh NodeMakers (no cache sharing)"]
+    cfg = "SPECIFICATION Spec\n" + "".join("INVARIANT %s\n" % i for i in (
+        "C43_NeIsNegation", "C43_HashFollowsEq", "C43_EqIffSameString", "C43_NodesLikeCaps"))
+    tokf = os.path.join(ctx.workdir, "tokens.json")
+    env = dict(JVM)
+    env["TOK_FILE"] = tokf
+    cases, r = ctx.gen("caps/CapsGen43", cfg, env=env, timeout=3000)
+    ctx.exhaustive = True
+    nconc = 3 if ctx.quick else 60
+    ctx.constants["GEN"] = {"cases": len(cases), "concretisations_per_case": nconc}
+    res = ctx.impl("harness/caps_driver.py", ["c43"], input_obj={"cases": cases, "tokens": json.load(open(tokf)), "nconc": nconc})
+    for c in cases:
+        ctx.count(json.dumps({k: v for k, v in c.items() if k != "v"}, sort_keys=True), nconc)
+    for s_ in res["samples"]:
+        ctx.sample(s_, limit=4)
+    ctx.notes.append("pairs compared per class: %s" % json.dumps(res["stats"], sort_keys=True))
+    report_mismatches(ctx, res["mismatches"], "build a and b independently (uri.from_string / NodeMaker.create_from_cap of two NodeMakers) "
+                      "from the latin-1 strings in the example and evaluate a == b, a != b, hash(a) == hash(b)")
